@@ -6,7 +6,7 @@ from pv.props import c01
 
 ID = "C15"
 LEVEL = "exploration"
-N = {"quick": 300, "thorough": 4000}
+N = {"quick": 540, "thorough": 4000}
 RULE = ("cases = composable / mergeable contract pairs from the C01 generators with overlap planting: an interface-level guarantee "
         "present on both sides identically, positively scaled, loosened, or as mutually implied but syntactically different sets; "
         "with and without connections, both call orders, simplify on/off, compose and merge; oracle: every operand guarantee term over "
